@@ -503,13 +503,16 @@ def to_bits(v, n, where=''):
 def eq3(a, b, where=''):
     """three-valued equality: True / False / raises Undetermined or returns a Sym condition"""
     if isinstance(a, (Sym,)) or isinstance(b, (Sym,)):
+        for x, y in ((a, b), (b, a)):
+            if isinstance(x, Sym) and isinstance(y, (int, bool)) and not (0 <= int(y) < (1 << x.n)):
+                raise Raised('ValueError')       # Bits == int outside [0, 2^n) raises in PythonBits
         return Sym(comm('eq', termof(a), termof(b)), 1)
     if isinstance(a, BV) or isinstance(b, BV):
         n = widthof(a) if isinstance(a, BV) else widthof(b)
         for x in (a, b):
             if isinstance(x, (int, bool)):
                 if not (0 <= int(x) < (1 << n)):
-                    return False
+                    raise Raised('ValueError')   # Bits == int outside [0, 2^n) raises in PythonBits
             elif not isinstance(x, BV):
                 return False
         if isinstance(a, BV) and isinstance(b, BV) and a.n != b.n:
@@ -547,7 +550,8 @@ def order3(op, a, b, where=''):
         raise AnalysisError(f"order comparison of {x!r} {where}")
     la, ha, fa = rng(a)
     lb, hb, fb = rng(b)
-    if op in ('gt', 'ge'):
+    swapped = op in ('gt', 'ge')
+    if swapped:
         la, ha, fa, lb, hb, fb = lb, hb, fb, la, ha, fa
         op = {'gt': 'lt', 'ge': 'le'}[op]
     if op == 'lt':
@@ -563,7 +567,14 @@ def order3(op, a, b, where=''):
     for f in (fa, fb):
         if isinstance(f, tuple):
             raise Undetermined(f)
-    raise AnalysisError(f"order comparison on symbolic data {where}")
+    # undetermined comparison of symbolic data with something: a symbolic condition (both outcomes are explored)
+    (x, y) = (b, a) if swapped else (a, b)          # now the question is  x <op> y  with op in lt/le
+    tx, ty = termof(x), termof(y)
+    if op == 'lt' and tx == ('const', 0):
+        return Sym(comm('ne', ty, ('const', 0)), 1)      # 0 < y   <=>  y != 0   (unsigned)
+    if op == 'le' and ty == ('const', 0):
+        return Sym(comm('eq', tx, ('const', 0)), 1)      # x <= 0  <=>  x == 0   (unsigned)
+    return Sym((op, tx, ty), 1)
 
 
 class Ctx:
